@@ -1011,6 +1011,15 @@ func genC09With(g *Gen, withBig bool) {
 	g.Add("w/dir", Ls(I(2), Ls(I(1)), Ls(wm(10), fill(0, 0, 2, 10), wb(1, 5000, 0), fl, wm(1), wb(2, 2, 0), fl, wl)))
 	g.Add("w/dir", Ls(I(2), Ls(I(2)), Ls(wb(1, 4096, 0), fl, wb(2, 4097, 4095), wm(1), fill(0, 0, 9, 1), fl, wm(1), fl)))
 	g.Add("w/dir", Ls(I(2), Ls(I(0)), Ls(fl, wm(0), fl, wm(-1), wb(1, 0, 0), wb(1, 0, 64), fl, wl)))
+	// regions handed out BEFORE a very large WriteBinary stay writable until the caller's Flush
+	// (reserve a length prefix, write the body, back-patch the prefix), whatever the payload size
+	for _, big := range []int{65536, 70000, 200000} {
+		for _, first := range []int{4, 5000} {
+			g.Add("w/late-fill-big", Ls(I(2), Ls(I(0)), Ls(wm(first), wb(1, big, 0), fill(0, 0, 2, first), fl, wl)))
+			g.Add("w/late-fill-big", Ls(I(2), Ls(I(0)), Ls(wm(first), wm(7), wb(1, big, 3), wb(2, big/2, 0), fill(1, 0, 3, 7), fill(0, 0, 2, first), fl, wm(3), fill(2, 0, 4, 3), fl)))
+		}
+		g.Add("bw/late-fill-big", Ls(I(3), Ls(I(0), PatV(1, 3), PatV(2, 0), PatV(3, 16)), Ls(wm(4), wb(1, big, 0), fill(0, 0, 2, 4), fl)))
+	}
 	for _, sp := range [][3]int{{0, 0, 0}, {0, 10, 0}, {0, 10, 54}, {8, 100, 3996}, {0, 0, 4096}, {4, 60, 0}} {
 		g.Add("bw/dir", Ls(I(3), Ls(I(0), PatV(1, sp[0]), PatV(2, sp[1]), PatV(3, sp[2])), Ls(wm(5), fill(0, 0, 4, 5), wb(5, 40, 24), wm(5000), fill(1, 0, 6, 5000), wm(9000), fill(2, 0, 7, 9000), fl, wm(3), fill(3, 0, 8, 3), fl, wl)))
 		g.Add("bw/dir", Ls(I(3), Ls(I(0), PatV(1, sp[0]), PatV(2, sp[1]), PatV(3, sp[2])), Ls(wm(2), fill(0, 0, 4, 2), fl, fl)))
